@@ -4,7 +4,7 @@ import copy
 from .. import common, gen, trees
 
 LEVEL = "proof"
-EXTRA_LEAN_MODULES = ["Luqum.Props.GenClone", "Luqum.Props.GenPrint"]   # clone_item and __str__ translated from the source (tools/pysym.py)
+EXTRA_LEAN_MODULES = ["Luqum.Props.GenClone", "Luqum.Props.GenPrint", "Luqum.Props.GenChildren"]   # clone_item and __str__ translated from the source (tools/pysym.py)
 RULE = ("pairs of trees (random programmatic tree over all 20 item classes, incl. non-normalised "
         "Decimals, names, positions, layout) x {itself with other layout/names, single-point mutation "
         "of one attribute of one node, dropped/extra/swapped child, unrelated tree}; every node of the "
